@@ -460,7 +460,7 @@ func (c *Client) opendir(ctx context.Context, path string) (string, error) {
 		}
 		return handle, nil
 	case sshFxpStatus:
-		return "", normaliseError(unmarshalStatus(id, data))
+		return "", errFromStatus(id, data)
 	default:
 		return "", unimplementedPacketErr(typ)
 	}
@@ -500,7 +500,7 @@ func (c *Client) Lstat(p string) (os.FileInfo, error) {
 		}
 		return fileInfoFromStat(attr, path.Base(p)), nil
 	case sshFxpStatus:
-		return nil, normaliseError(unmarshalStatus(id, data))
+		return nil, errFromStatus(id, data)
 	default:
 		return nil, unimplementedPacketErr(typ)
 	}
@@ -535,7 +535,7 @@ func (c *Client) ReadLink(p string) (string, error) {
 		}
 		return filename, nil
 	case sshFxpStatus:
-		return "", normaliseError(unmarshalStatus(id, data))
+		return "", errFromStatus(id, data)
 	default:
 		return "", unimplementedPacketErr(typ)
 	}
@@ -705,7 +705,7 @@ func (c *Client) open(path string, pflags uint32) (*File, error) {
 		}
 		return &File{c: c, path: path, handle: handle}, nil
 	case sshFxpStatus:
-		return nil, normaliseError(unmarshalStatus(id, data))
+		return nil, errFromStatus(id, data)
 	default:
 		return nil, unimplementedPacketErr(typ)
 	}
@@ -749,7 +749,7 @@ func (c *Client) stat(path string) (*FileStat, error) {
 		attr, _, err := unmarshalAttrs(data)
 		return attr, err
 	case sshFxpStatus:
-		return nil, normaliseError(unmarshalStatus(id, data))
+		return nil, errFromStatus(id, data)
 	default:
 		return nil, unimplementedPacketErr(typ)
 	}
@@ -773,7 +773,7 @@ func (c *Client) fstat(handle string) (*FileStat, error) {
 		attr, _, err := unmarshalAttrs(data)
 		return attr, err
 	case sshFxpStatus:
-		return nil, normaliseError(unmarshalStatus(id, data))
+		return nil, errFromStatus(id, data)
 	default:
 		return nil, unimplementedPacketErr(typ)
 	}
@@ -807,7 +807,7 @@ func (c *Client) StatVFS(path string) (*StatVFS, error) {
 
 	// the resquest failed
 	case sshFxpStatus:
-		return nil, normaliseError(unmarshalStatus(id, data))
+		return nil, errFromStatus(id, data)
 
 	default:
 		return nil, unimplementedPacketErr(typ)
@@ -980,7 +980,7 @@ func (c *Client) RealPath(path string) (string, error) {
 		}
 		return filename, nil
 	case sshFxpStatus:
-		return "", normaliseError(unmarshalStatus(id, data))
+		return "", errFromStatus(id, data)
 	default:
 		return "", unimplementedPacketErr(typ)
 	}
@@ -2263,6 +2263,18 @@ func (f *File) Sync() error {
 	default:
 		return &unexpectedPacketErr{want: sshFxpStatus, got: typ}
 	}
+}
+
+// errFromStatus converts an SSH_FXP_STATUS reply to a request that is answered
+// with data (a handle, attributes, names, ...) on success.
+// For such a request a status can only report a failure: even SSH_FX_OK
+// carries no value, so it must not become a nil error next to a nil result.
+func errFromStatus(id uint32, data []byte) error {
+	err := normaliseError(unmarshalStatus(id, data))
+	if err == nil {
+		return errors.New("sftp: unexpected SSH_FX_OK status in reply to a request that returns data")
+	}
+	return err
 }
 
 // normaliseError normalises an error into a more standard form that can be
